@@ -296,7 +296,7 @@ on...",
             self.Send(comm, dest=S.status.slot + 1, buffer=[buff, self.MPI_BOOL])
 
         if self.params.restart_from_first_step:
-            max_restart_reached = comm.bcast(S.status.restarts_in_a_row > self.params.max_restarts, root=0)
+            max_restart_reached = comm.bcast(S.status.restarts_in_a_row >= self.params.max_restarts, root=0)
             S.status.restart = comm.allreduce(S.status.restart, op=self.OR) and not max_restart_reached
 
         if crash_now:
